@@ -1446,7 +1446,9 @@ MANIFEST_ENTRY = {
              'inspected plane above its saturation level. TRANSLATED each run: ADC ceiling, container-width chain, the clip / gain / '
              'clip chain of expose statement by statement (nothing but shape handling / lut / return may follow the cast), '
              'bindown/tile shape formulas, reduction axes, scale factors, Bayer slices and plane/site/gain tables (pre and post), '
-             'Malvar source table, kernels, divisor, the green average of demosaic_deinterlace (as a term), the safe-limiting loop step. RECOGNISER FACTS only (no Lean content): output '
+             'the interleaved view shapes of bindown / tile, both mode tables, the shape expose returns, the boundary rule of the Malvar '
+             'filters (terms with obligations; proved: factors sit on the odd = reduced / broadcast axes, frames x prod(shape) samples, '
+             'interior Malvar samples independent of the boundary rule), Malvar source table, kernels, divisor, the green average of demosaic_deinterlace (as a term), the safe-limiting loop step. RECOGNISER FACTS only (no Lean content): output '
              'shape (frames, *image.shape), interleaved views, mode tables, planes inspected / per-plane saturation / gains divided. '
              'MODELLED AND COMPARED (driver runs the HAND model): exposure on doubles (DN exact, bits 1..32, maps, frames, 1-D..4-D '
              'images), container rejection for bits > 32, N-D binning/tiling on floats and on uint8/16/32, int8/16/32, bool arrays '
@@ -1456,7 +1458,8 @@ MANIFEST_ENTRY = {
              '(range, dtype, shape, 8-sigma band) and a recording of what is asked of the RNG (rate, sigma, sizes); '
              'demosaic_deinterlace, wb_postscale and the descaling ratio of safe white balance (pre and post, scalar and per-plane '
              'saturation) against the model on rationals; Malvar on one-colour mosaics (5x5..16x16, odd shapes); Detector(lut=...) '
-             'for bits <= 14 (identity, permutation and float tables, 1 and 3 frames): exposure = lut[DN without lut].'),
+             'for bits <= 14 (identity, permutation and float tables, 1 and 3 frames): exposure = lut[DN without lut]; '
+             'assemble_superresolved: channel totals conserved (predicate only).'),
     'note': ('Trusted: the unsigned cast of an in-range double is floor; NumPy reshape/broadcast/ndimage.convolve semantics '
              '(compared); 64-bit accumulation of integer sums. Not covered: the distribution of the random draws, '
              'assemble_superresolved, safe white balance with non-unit gains (nothing is promised by the code).'),
